@@ -77,9 +77,11 @@ class Result(object):
         self.counts[key] = self.counts.get(key, 0) + n
 
     def violation(self, sig, case, msg):
-        if len(self.violations) < 200:
+        # cap per signature (not globally) so that a flood of one kind never hides another
+        if sum(1 for v in self.violations if v["sig"] == sig) < 5:
             self.violations.append({"sig": sig, "case": jsonable(case), "msg": msg})
         self.count("violations_raw")
+        self.count("viol:" + sig)
 
     def sample(self, case, cap=3):
         if len(self.samples) < cap:
@@ -88,8 +90,9 @@ class Result(object):
     def merge(self, other):
         for k, v in other.counts.items():
             self.counts[k] = self.counts.get(k, 0) + v
-        room = 400 - len(self.violations)
-        self.violations.extend(other.violations[:max(room, 0)])
+        for v in other.violations:
+            if sum(1 for w in self.violations if w["sig"] == v["sig"]) < 10:
+                self.violations.append(v)
         for s in other.samples:
             if len(self.samples) < 6:
                 self.samples.append(s)
@@ -97,6 +100,9 @@ class Result(object):
         for k, v in other.notes.items():
             if isinstance(v, (int, float)) and isinstance(self.notes.get(k), (int, float)):
                 self.notes[k] = max(self.notes[k], v)
+            elif isinstance(v, list):
+                self.notes.setdefault(k, [])
+                self.notes[k].extend(v)
             elif isinstance(v, (set, frozenset)):
                 self.notes[k] = set(self.notes.get(k, set())) | set(v)
             else:
@@ -159,7 +165,7 @@ def finish(prop, tier, seed, level, res, coverage, assumptions, t0, replay_hint=
             hit.setdefault(v["sig"], []).append(v)
     for sig, vs in sorted(hit.items()):
         print("KNOWN-FINDING: property=%s %s (%d cases this run; e.g. %s)" % (
-            prop, known_sigs[sig]["what"], len(vs), json.dumps(vs[0]["case"])[:300]))
+            prop, known_sigs[sig]["what"], res.counts.get("viol:" + sig, len(vs)), json.dumps(vs[0]["case"])[:300]))
     rdir = os.path.join(HERE, "replay", prop)
     paths = []
     if new:
@@ -180,7 +186,7 @@ def finish(prop, tier, seed, level, res, coverage, assumptions, t0, replay_hint=
     cov = dict(coverage)
     cov.setdefault("samples", res.samples[:6] or ["(none)"])
     cov.setdefault("counts", dict(sorted(res.counts.items())))
-    cov["known_finding_cases"] = {s: len(v) for s, v in hit.items()}
+    cov["known_finding_cases"] = {s: res.counts.get("viol:" + s, len(v)) for s, v in hit.items()}
     ev = {
         "property_id": prop, "tier": tier, "seed": seed, "level": level,
         "coverage": cov, "assumptions": assumptions,
